@@ -1079,6 +1079,42 @@ def run_unknownnested(sx, cfg, env):
     sx.fail("unknown-nested-parameter-is-rejected")
 
 
+def run_foreigndtc(sx, cfg, env):
+    """C04: a DiagnosticTroubleCode OBJECT that does not belong to the DOP (another DOP's, or the
+    placeholder the lenient decoder returns) with an arbitrary trouble code: rejected, or the
+    encoding decodes to the trouble code that was given"""
+    from odxtools.diagnostictroublecode import DiagnosticTroubleCode
+    from odxtools.exceptions import OdxError
+    from catalogue.build import mk, oid
+    obj, spec = env["obj"], env["spec"]
+    vals = gen_params(sx, spec["params"], "", cfg["shape"], "C04")
+    code = vals["d"]
+    sx.assume(s_and(code >= 0, code < (1 << 24)))
+    vals["d"] = mk(DiagnosticTroubleCode, odx_id=oid("foreign.dtc"), short_name="DTC_foreign",
+                   trouble_code=code, text="foreign", display_trouble_code=None, level=None,
+                   is_temporary_raw=None, sdgs=[])
+    try:
+        pdu = obj.encode(**vals)
+    except OdxError:
+        sx.cover("rejected")
+        sx.require(True, "foreign-dtc:rejected-or-round-trip")
+        return
+    except Exception as e:  # noqa: BLE001
+        sx.observe("exception", type(e).__name__)
+        sx.fail("rejection-uses-the-library-error-type")
+        return
+    sx.cover("accepted")
+    try:
+        dec = obj.decode(core.frozen(pdu))
+    except Exception as e:  # noqa: BLE001
+        sx.observe("decode-exception", type(e).__name__)
+        sx.fail("own-pdu-decodes")
+        return
+    sx.require(dec["d"].trouble_code == code, "roundtrip:trouble-code")
+
+
+FOREIGNDTC_HARNESS = {"build": build_composite, "run": run_foreigndtc, "width": 80,
+                      "must_cover": ["rejected", "accepted"]}
 UNKNOWNNESTED_HARNESS = {"build": build_composite, "run": run_unknownnested, "width": 80,
                          "must_cover": ["rejected"]}
 BADSELECTOR_HARNESS = {"build": build_composite, "run": run_badselector, "width": 80,
